@@ -84,6 +84,11 @@ def explore(prop, tier, off=0):
             ign = r.choice([[], [], [], ['y'], [0], ['*'], ['q', 'p'], ['**'], ['alpha', 'beta']]) if func in ('f1', 'f2') else []
             calls = [gen_call(r, func) for _ in range(5)]
             items.append(dict(func=func, km=km, ignore=ign, calls=calls, tol=(2 if i % 4 == 1 else None), deep=(i % 8 == 1)))
+        # fixed strata: every session makes LITERALLY the same call (positional, nothing to permute): whatever differs then comes from the
+        # process alone. Several name-ignored parameters without defaults under keymaps that encode the keyword dict as it is ordered
+        for km in (('string', {'flat': False}), ('md5', {'flat': False}), ('pickle', {'flat': False})):
+            items.append(dict(func='f4', km=km, ignore=['alpha', 'beta', 'gamma', 'delta'], tol=None, deep=False,
+                              calls=[dict(args=['1', '2', '3', '4', '5'], kw=[]), dict(args=["'a'", '2.5', 'None', '4', '(1, 2)'], kw=[])]))
         # each session sees the same calls, with its own keyword order and its own process noise
         jobs = []
         for si, hs in enumerate(SEEDS):
@@ -109,9 +114,13 @@ def explore(prop, tier, off=0):
                     tags['keyed-call'] += 1
                     if len(set(col)) > 1 and not all(c.startswith('EXC') for c in col):
                         flat = kmo.get('flat', True)
+                        # did the sessions spell the call differently (keyword order)? if every session made literally the same call, the
+                        # difference comes from the process alone (hash seed, noise) - not the keyword-order leak F11 lists
+                        ii = items.index(it)
+                        spellings = set(json.dumps(j[0]['items'][ii]['calls'][ci]['kw']) for j in jobs)
                         viols.append(dict(prop='C17', i=0, sig=dict(kind='key-differs-across-sessions', keymap=kmk, flat=flat, typed=bool(kmo.get('typed')),
                                                                      sentinel=bool(kmo.get('sentinel')), ignore_names=len([x for x in it['ignore'] if isinstance(x, str)]),
-                                                                     kw_order_only=(not flat)),
+                                                                     kw_order_only=(not flat), same_spelling=len(spellings) == 1),
                                           msg='%s%r ignore=%r %s%r: keys in %d sessions (PYTHONHASHSEED %s, permuted keyword order): %s' % (
                                               kmk, kmo, it['ignore'], it['func'], it['calls'][ci], len(col), SEEDS, ' | '.join(c[:120] for c in sorted(set(col)))),
                                           cfg=dict(item=it, call=ci), ops=[]))
@@ -172,6 +181,22 @@ def explore(prop, tier, off=0):
 
 
 def replay(prop, obj):
+    case = obj.get('case') or {}
+    if (obj.get('signature') or {}).get('kind') == 'key-differs-across-sessions' and 'item' in case:
+        # deterministic: the one item keyed, as it is, in four fresh interpreters with the four hash seeds
+        it = case['item']; ci = case.get('call', 0)
+        tmp = scratch_dir('ks')
+        try:
+            outs = [child(dict(mode='keys', items=[it], noise=si * 7, shuffle=0), hs, tmp) for si, hs in enumerate(SEEDS)]
+        finally:
+            rm_rf(tmp)
+        errs = [o['error'] for o in outs if 'error' in o]
+        if errs: raise NoVerdict(errs[0])
+        col = [o['keys'][ci] for o in outs]
+        viol = []
+        if len(set(col)) > 1:
+            viol.append(dict(prop='C17', i=0, sig=dict(obj['signature'], same_spelling=True), msg='the same call keyed in four sessions: ' + ' | '.join(c[:120] for c in sorted(set(col)))))
+        return dict(violations=viol, divergence=None)
     raise NoVerdict('suite session replays are regenerated from the seed: VERIF_SEED=%s ./check %s' % (obj.get('seed'), prop))
 
 
